@@ -410,7 +410,21 @@ class Scenario:
             if self.shutdown_at is not None and not op.get("probe"):
                 pass
             self._start_call(op)
+        elif kind == "cancel_call":
+            # the caller of the oldest unfinished request gives up right now
+            for c in self.calls:
+                if c["t1"] is None and c.get("task") is not None and not c["task"].done():
+                    c["cancelled_by_plan"] = True
+                    if c["conn"] is not None:
+                        self.legit_disturb.setdefault(c["conn"], []).append(loop.time())
+                    ctx.probe("caller_cancelled")
+                    c["task"].cancel()
+                    break
         elif kind in ("rst", "fin"):
+            if kind == "rst" and op.get("then") and w.net.rst_window_hops:
+                # controller actions placed inside the window in which the RST has arrived but is not yet processed
+                then, k = op["then"], op.get("then_ticks", 0)
+                w.net.on_rst_pending = lambda conn, then=then, k=k: (setattr(w.net, "on_rst_pending", None), self._do_op(dict(then, ticks=k)))
             sess = self._current_session()
             if sess is not None and not sess.closed:
                 self.legit_disturb.setdefault(sess.conn.no, []).append(loop.time())
@@ -485,6 +499,15 @@ class Scenario:
                 l["active"] = False
                 l["removed_at"] = loop.time()
                 l["unsub"]()
+        elif kind == "refuse_ev":
+            # the accessory (a bridge whose bridged device is away) answers requests for events on these characteristics with an error
+            # status for a while; the caller's subscription stands and must be asked for again on every later connection
+            for a, i in [tuple(x) for x in op["ids"]]:
+                if op.get("on", True):
+                    w.status_plan[("e", a, i)] = op.get("status", -70402)
+                else:
+                    w.status_plan.pop(("e", a, i), None)
+            ctx.probe("accessory_refuses_events" if op.get("on", True) else "accessory_accepts_events_again")
         elif kind == "big_value":
             key = (op["aid"], op["iid"])
             self.value_hist.setdefault(key, [(0.0, w.acc.values.get(key))]).append((loop.time(), "v" * op["n"]))
@@ -784,11 +807,12 @@ class Scenario:
             return
         ctx.obligations += 1
         ctx.probe("resub_checked")
-        missing = desired - set(sess.subscriptions)
+        asked = set(getattr(sess, "ev_asked", sess.subscriptions)) | set(sess.subscriptions)
+        missing = desired - asked
         if missing:
             ctx.violate("C12.not-resubscribed", "",
                         f"t={self.loop.time():.3f}: secure connection {conn.no} established and connector finished, but the accessory was not asked "
-                        f"for events on {sorted(missing)} (registered: {sorted(sess.subscriptions)})")
+                        f"for events on {sorted(missing)} (asked on this connection: {sorted(asked)})")
         # connection-is-back notification
         t_est = None
         for name, l in self.listeners.items():
